@@ -34,6 +34,18 @@ func echoBytes(args [][]byte) []byte {
 	return b.Bytes()
 }
 
+// echoReply is the reply of an echo-mode node: a bulk string for most commands, a status line for
+// SET-like commands and an error line for INCR-like ones (so that every reply type carries the request's identity).
+func echoReply(cmd string, args [][]byte) resp.Value {
+	switch cmd {
+	case "set", "lset", "hmset", "setex", "ltrim":
+		return resp.S("E" + fmt.Sprintf("%x", echoBytes(args)))
+	case "incr", "incrby", "hincrby":
+		return resp.E("ERR echo " + fmt.Sprintf("%x", echoBytes(args)))
+	}
+	return resp.B(echoBytes(args))
+}
+
 // embeddedInt parses the integer embedded in a key "n<int>:...".
 func embeddedInt(key []byte) int64 {
 	if len(key) < 2 || key[0] != 'n' {
@@ -69,7 +81,7 @@ func echoHandler(n *fakecluster.Node, completed *sync.Map) func(c *fakecluster.C
 		if sumCmds[cmd] {
 			return fakecluster.Reply{Raw: resp.Encode(resp.I(embeddedInt(key)))}, true
 		}
-		return fakecluster.Reply{Raw: resp.Encode(resp.B(echoBytes(args)))}, true
+		return fakecluster.Reply{Raw: resp.Encode(echoReply(cmd, args))}, true
 	}
 }
 
@@ -83,7 +95,7 @@ type c01Req struct {
 	keys     []string // keys of simple keyed children, for inversion measurement
 }
 
-var c01SimpleCmds = []string{"GET", "get", "SET", "hget", "HSET", "lrange", "ZADD", "expire", "Append", "sadd", "TTL", "hmget", "getset", "INCR", "lpush", "zrangebyscore", "pfadd", "georadius"}
+var c01SimpleCmds = []string{"GET", "get", "SET", "set", "hget", "HSET", "lrange", "ZADD", "expire", "Append", "sadd", "TTL", "hmget", "getset", "INCR", "incrby", "lpush", "zrangebyscore", "pfadd", "georadius", "LSET", "hmset", "setex", "ltrim", "HINCRBY"}
 var c01Unsupported = []string{"KEYS", "multi", "EXEC", "subscribe", "CLUSTER", "flushall", "blpop", "nosuchcmd", "wait", "migrate"}
 
 func c01GenReq(rnd *rand.Rand, connID, seq int, hostile bool) c01Req {
@@ -126,8 +138,8 @@ func c01GenReq(rnd *rand.Rand, connID, seq int, hostile bool) c01Req {
 		for i := rnd.Intn(4); i > 0; i-- {
 			args = append(args, val())
 		}
-		want := resp.B(echoBytes(args))
-		return c01Req{class: "simple", raw: resp.Cmd(args...), exact: &want, keys: []string{string(args[1])}}
+		want := echoReply(strings.ToLower(cmd), args)
+		return c01Req{class: "simple-" + string(want.Kind), raw: resp.Cmd(args...), exact: &want, keys: []string{string(args[1])}}
 	case pick < 55: // MGET
 		n := 1 + rnd.Intn(8)
 		args := [][]byte{bs([]string{"MGET", "mget", "MgEt"}[rnd.Intn(3)])}
